@@ -288,8 +288,8 @@ class FakeOS:
             raise oserr(errno.EINVAL)
         if "kill" in p.denied:
             raise oserr(errno.EPERM)
+        w.effects.append(("kill", pid, (sig,), p.uid))        # (signal 0 = existence probe: logged, no effect)
         if sig != 0:
-            w.effects.append(("kill", pid, (sig,), p.uid))
             w.on_signal(p, sig)
 
     def waitpid(self, pid, flags):
